@@ -625,6 +625,52 @@ func (u *Universe) InexactSizeOps(rng *rand.Rand, repo, tag string) []*Op {
 	return ops
 }
 
+// DecoratedRefsOps is a scripted history prefix: a tagged image whose layer descriptors carry the optional
+// fields (urls of a foreign layer, the non-distributable media type, annotations, an artifact type, a
+// platform) and whose layers are all present. Optional fields describe a reference, they do not make it
+// any less of one: every layer and the config stay where the tag can reach them.
+func (u *Universe) DecoratedRefsOps(rng *rand.Rand, repo, tag string) []*Op {
+	u.nonce++
+	mkBlob := func(what string) []byte { return []byte(fmt.Sprintf("%s of decorated history %d", what, u.nonce)) }
+	push := func(b []byte) *Op {
+		return &Op{Kind: "PushBlob", Repo: repo, Data: b, Digest: Digest(b), Size: int64(len(b)), MediaType: "application/octet-stream"}
+	}
+	cfg := mkBlob("config")
+	ops := []*Op{push(cfg)}
+	var layers []ocispec.Descriptor
+	var blobs [][]byte
+	for k := 0; k < 5; k++ {
+		b := mkBlob(fmt.Sprintf("layer %d", k))
+		d := desc("application/octet-stream", b)
+		switch k {
+		case 0:
+			d.URLs = []string{"https://foreign.example/layers/" + d.Digest.Encoded()[:12]}
+		case 1:
+			d.URLs = []string{"https://a.example/x", "https://b.example/x"}
+			d.MediaType = "application/vnd.oci.image.layer.nondistributable.v1.tar+gzip"
+		case 2:
+			d.Annotations = map[string]string{"org.opencontainers.image.title": "layer.bin"}
+		case 3:
+			d.ArtifactType = "application/vnd.example.artifact"
+		case 4:
+			d.Platform = &ocispec.Platform{OS: "linux", Architecture: "riscv64"}
+		}
+		layers = append(layers, d)
+		blobs = append(blobs, b)
+		ops = append(ops, push(b))
+	}
+	rng.Shuffle(len(layers), func(i, j int) { layers[i], layers[j] = layers[j], layers[i] })
+	img := ocispec.Manifest{MediaType: MTImage, Config: desc("application/vnd.oci.image.config.v1+json", cfg), Layers: layers}
+	img.SchemaVersion = 2
+	imgData, _ := json.Marshal(img)
+	ops = append(ops, &Op{Kind: "PushManifest", Repo: repo, Tag: tag, Data: imgData, MediaType: MTImage}, &Op{Kind: "GetTag", Repo: repo, Tag: tag})
+	for _, b := range blobs {
+		ops = append(ops, &Op{Kind: "DeleteBlob", Repo: repo, Digest: Digest(b)}, &Op{Kind: "GetBlob", Repo: repo, Digest: Digest(b)})
+	}
+	ops = append(ops, &Op{Kind: "DeleteBlob", Repo: repo, Digest: Digest(cfg)})
+	return ops
+}
+
 // LyingChildOps is a scripted history prefix: a manifest of a type the registry does not look into (its
 // bytes are no image manifest), an ordinary image, and a tagged index that lists the first - stated to be
 // an image manifest - in front of the second; then attempts to delete the second image and its layer.
